@@ -1,7 +1,7 @@
 //! Replays call sequences generated from specs/ByteChannel.tla on the real byte channel,
 //! polling by hand with counting wakers (no runtime): every call is one atomic step of the
 //! implementation, so a replayed path is an exact schedule.
-use crate::common::count_waker;
+use h_common::count_waker;
 use serde_json::{json, Value};
 use std::future::Future;
 use std::num::NonZeroUsize;
@@ -137,7 +137,16 @@ pub fn run_case(case: &Value) -> Value {
     json!({ "obs": obs, "written": wpos, "read": rpos })
 }
 
-pub fn stress(_args: &[String]) {
+fn main() {
+    let args: Vec<String> = std::env::args().collect();
+    if args.get(1).map(|s| s.as_str()) == Some("stress") {
+        stress(&args[2..]);
+    } else {
+        h_common::drive(run_case);
+    }
+}
+
+fn stress(_args: &[String]) {
     eprintln!("not yet implemented");
     std::process::exit(2);
 }
